@@ -235,7 +235,7 @@ def oracle(case, out, build, exe_query=None):
         if lo > hi:
             return True, "(lower>upper)"
         return lo <= o <= hi and (o == x or not lo <= x <= hi), "inside [lower,upper], == x when x inside"
-    if fn == 25:
+    if fn in (25, 29):
         exp = ",".join(str(v) for v in pcg32_ref(a[0], a[1], a[2]))
         return out == exp, "the pcg32 reference stream for (seed, sequence)"
     return True, "(no oracle)"
@@ -434,6 +434,7 @@ def gen_int_cases(r, scale):
             cs.append("25 %d %d 64" % (s, q))
     for _ in range(60 * scale):
         cs.append("25 %d %d 64" % (r.randint(-2 ** 31, 2 ** 31 - 1), r.randint(-2 ** 31, 2 ** 31 - 1)))
+    cs += ["29" + c[2:] for c in cs if c.startswith("25 ")]      # translation validation: the REGENERATED engine vs the class
     for _ in range(120 * scale):
         cs.append("26 %d %d %d %d" % tuple(r.choice([0, 1, 127, 128, 254, 255, r.randint(0, 255)]) for _ in range(4)))
     return cs
@@ -457,7 +458,7 @@ def nontrivial(case, out):
         return (hi - lo) < 2.0 ** -94 or (lo < 0 < hi) or lo == hi or a[2] in (0, 1, 2 ** 31, 2 ** 32 - 1)
     if fn in (20, 21, 22, 23):
         return a[1] > 1 and a[0] % a[1] != 0 or a[0] + a[1] > (1 << 31)
-    if fn == 25:
+    if fn in (25, 29):
         return a[0] < 0 or a[1] < 0 or a[0] > 1000
     return fn == 13
 
@@ -672,6 +673,19 @@ def regenerate(ctx):
         changed.append("SimdFacts.v")
         shutil.copy(tmp2, gen2)
     os.remove(tmp2)
+    tmp4 = os.path.join(ctx.build, "PcgFacts.new.v")
+    rc, o = vlib.sh(["python3", os.path.join(ctx.verif, "props", "C07", "pcgfacts.py"), ctx.repo, tmp4], timeout=300)
+    if rc != 0 or not os.path.exists(tmp4):
+        ctx.log("pcgfacts failed:\n" + o[-2000:])
+        ctx.broken.append("regeneration of gen/PcgFacts.v from the working tree (clang failed)")
+        return
+    txt4 = open(tmp4).read()
+    ctx.cov["pcg_facts"] = dict(re.findall(r"Definition (pcg_\w+) : \w+ :=\s*(.*?)\.\n", txt4, re.S))
+    gen4 = os.path.join(gdir, "PcgFacts.v")
+    if not os.path.exists(gen4) or open(gen4).read() != txt4:
+        changed.append("PcgFacts.v")
+        shutil.copy(tmp4, gen4)
+    os.remove(tmp4)
     tmp3 = os.path.join(ctx.build, "DistFacts.new.v")
     rc, o = vlib.sh(["python3", os.path.join(ctx.verif, "props", "C07", "distfacts.py"), ctx.repo, tmp3], timeout=300)
     if rc != 0 or not os.path.exists(tmp3):
@@ -730,32 +744,32 @@ def run(ctx):
     regenerate(ctx)
     pool = ThreadPoolExecutor(max_workers=1)
     fut = pool.submit(build_and_sweep, ctx)
-    ctx.coq_check(("Properties.v", "PropertiesGen.v"))
+    ctx.coq_check(("Properties.v", "PropertiesGen.v", "PropertiesGenRandom.v"))
     # name the regenerated obligation that broke (ProofsGen.v is one file: the first failing lemma stops it)
-    m = re.search(r'File "\./ProofsGen\.v", line (\d+)', getattr(ctx, "coq_log", ""))
+    m = re.search(r'File "\./(ProofsGen(?:Random)?)\.v", line (\d+)', getattr(ctx, "coq_log", ""))
     if m:
-        ln = int(m.group(1))
-        src = open(os.path.join(ctx.coqdir, "ProofsGen.v")).read().split("\n")
+        pfile, ln = m.group(1), int(m.group(2))
+        src = open(os.path.join(ctx.coqdir, pfile + ".v")).read().split("\n")
         name = next((re.match(r"\s*Lemma (\w+)", src[i]).group(1) for i in range(min(ln, len(src)) - 1, -1, -1)
                      if re.match(r"\s*Lemma (\w+)", src[i])), "?")
         # which regenerated definitions does that lemma speak about, and do they now branch on a guard?
         lstart = next(i for i in range(min(ln, len(src)) - 1, -1, -1) if re.match(r"\s*Lemma (\w+)", src[i]))
         stmt = "\n".join(src[lstart:ln])
         gtxt = ""
-        for gfile in ("GenMath.v", "SimdFacts.v", "DistFacts.v"):
+        for gfile in ("GenMath.v", "SimdFacts.v", "DistFacts.v", "PcgFacts.v"):
             gp = os.path.join(ctx.coqdir, "gen", gfile)
             gtxt += open(gp).read() if os.path.exists(gp) else ""
         details = []
         for dname, body in re.findall(r"^Definition (\S+)[^\n]*:=\n(.*?)\.\n\n", gtxt + "\n", re.M | re.S):
-            if re.search(r"\b%s\b" % re.escape(dname), stmt):
+            if re.search(r"\b%s\b" % re.escape(dname), stmt) or (pfile == "ProofsGenRandom" and dname.startswith("pcg_") and dname.endswith(("_ast", "_ok", "_forwards"))):
                 guards = [g.strip() for g in re.findall(r"\(if (.*?)\n?\s*then", body, re.S)]
                 details.append({"definition": dname, "guards": guards, "text": body.strip()[:600]})
-        ctx.cov["gen_obligation_broken"] = {"lemma": name, "line": ln, "regenerated": details}
-        ctx.log("Tie A: regenerated definition no longer equals the model: ProofsGen.%s (line %d) fails" % (name, ln))
+        ctx.cov["gen_obligation_broken"] = {"lemma": pfile + "." + name, "line": ln, "regenerated": details}
+        ctx.log("Tie A: regenerated definition no longer equals the model: %s.%s (line %d) fails" % (pfile, name, ln))
         for d in details:
             if d["guards"]:
                 ctx.log("  regenerated %s branches on guard(s): %s" % (d["definition"], " ; ".join(d["guards"])[:400]))
-        ctx.broken.insert(0, "Tie A obligation ProofsGen.%s: the definition regenerated from the working tree is not the model's" % name)
+        ctx.broken.insert(0, "Tie A obligation %s.%s: the definition regenerated from the working tree is not the model's" % (pfile, name))
     model = ctx.extract(snippets=["conv_N.ml", "conv_Z.ml", "conv_nat.ml"])
     exes, sweeps = fut.result()
     pool.shutdown()
